@@ -193,6 +193,7 @@ macro_rules! runner {
       pub fn new(prog: Vec<Ast>, cfg: &Cfg) -> $name {
         crate::vsched::reset();
         let sh = Shared::new();
+        crate::vsched::set_stream_log(Some(sh.clone()));
         let env = $env {
           sh,
           prog: $progrc::new(prog),
